@@ -407,7 +407,8 @@ func (mapSetSelf *MapSetDef[T, R]) Union(input SetDef[T, R]) SetDef[T, R] {
 // Intersection Get the Intersection with this Set and an another Set
 func (mapSetSelf *MapSetDef[T, R]) Intersection(input SetDef[T, R]) SetDef[T, R] {
 	if input == nil || input.Size() == 0 {
-		return new(MapSetDef[T, R])
+		result := make(MapSetDef[T, R])
+		return &result
 	}
 
 	result := MapSetDef[T, R](IntersectionMapByKey(*mapSetSelf, input.AsMap()))
